@@ -30,6 +30,7 @@
 #include "tokenlist.h"
 #include "utils.h"
 #include "valueflow.h"
+#include "vf_common.h"
 #include "valueptr.h"
 
 #include <algorithm>
@@ -1324,6 +1325,30 @@ namespace {
             assert(pm != nullptr);
         }
 
+        // the value of a cast to an integer type is the converted value
+        ValueFlow::Value castResult(const Token* cast, ValueFlow::Value v) const
+        {
+            const ValueType* vt = cast->valueType();
+            if (!v.isIntValue() || v.isImpossible() || !vt || !vt->isIntegral() || vt->pointer != 0)
+                return v;
+            if (vt->type == ValueType::Type::BOOL) {
+                v.intvalue = (v.intvalue != 0) ? 1 : 0;
+                return v;
+            }
+            ValueType::Sign sign = vt->sign;
+            if (vt->type == ValueType::Type::CHAR && sign == ValueType::Sign::UNKNOWN_SIGN) {
+                // plain char has the signedness of the platform
+                if (settings.platform.defaultSign == 's' || settings.platform.defaultSign == 'S')
+                    sign = ValueType::Sign::SIGNED;
+                else if (settings.platform.defaultSign == 'u' || settings.platform.defaultSign == 'U')
+                    sign = ValueType::Sign::UNSIGNED;
+            }
+            const size_t size = vt->getSizeOf(settings, ValueType::Accuracy::ExactOrZero, ValueType::SizeOf::Pointer);
+            if (size > 0 && size < sizeof(MathLib::bigint))
+                v.intvalue = ValueFlow::truncateIntValue(v.intvalue, size, sign);
+            return v;
+        }
+
         static ValueFlow::Value unknown() {
             return ValueFlow::Value::unknown();
         }
@@ -1617,10 +1642,10 @@ namespace {
             } else if (expr->str() == "(" && expr->isCast()) {
                 if (expr->astOperand2()) {
                     if (expr->astOperand1()->str() != "dynamic_cast")
-                        return execute(expr->astOperand2());
+                        return castResult(expr, execute(expr->astOperand2()));
                     return unknown();
                 }
-                return execute(expr->astOperand1());
+                return castResult(expr, execute(expr->astOperand1()));
             }
             if (expr->exprId() > 0 && pm->hasValue(expr->exprId())) {
                 ValueFlow::Value result = utils::as_const(*pm).at(expr->exprId());
